@@ -385,7 +385,47 @@ def rule_r7(ctx):
     c04.rule_r1(ctx, rid="C12.R7")
 
 
-RULES = [rule_r1, rule_r2, rule_r3, rule_r4, rule_r5, rule_r6, rule_r7]
+def rule_r8(ctx, rid="C12.R8"):
+    ctx.r.rule(rid, "a disconnect noticed by the I/O thread's flush tears the channel down: on every call chain from handle_write the socket send runs with do_close=True (while a producer is paused the channel is not read, so this is the only way the disconnect is learnt and the producer released)")
+    from ..locks import thread_roles
+    p = ctx.p
+    io = thread_roles(p)["IO"]
+    keys = io.reaches("wasyncore.dispatcher.send")
+    n = 0
+    bad = {}
+    for k in keys:
+        # the chain of states back to the role's root
+        chain = []
+        kk = k
+        guard = 0
+        while kk is not None and guard < 80:
+            chain.append(kk)
+            kk = io.states[kk][1]
+            guard += 1
+        quals = [c[0] for c in chain]
+        if "channel.HTTPChannel.handle_write" not in quals:
+            continue
+        n += 1
+        ctxd = dict(k[2])
+        if ctxd.get("do_close") is True:
+            continue
+        # the first function on the way (from handle_write down) whose own do_close is not True
+        origin = None
+        for c in reversed(chain):
+            if "do_close" in dict(c[2]) and dict(c[2])["do_close"] is not True:
+                origin = c[0]
+                break
+        bad.setdefault(origin or "?", io.chain(k))
+    ctx.r.floor(rid, n, 2, "I/O-thread call chains from handle_write to the socket send")
+    if not bad:
+        ctx.r.ok(rid, "all %d chains from handle_write reach send() with do_close=True" % n, "src/waitress/channel.py")
+    for origin, ch in sorted(bad.items()):
+        ctx.r.violation(rid, "io-flush-never-closes::" + origin,
+                        "the I/O thread's flush reaches the socket send with do_close not True (first lost in %s): a disconnect seen while sending is swallowed, the channel is never torn down and a producer paused at the watermark waits forever"
+                        % origin, p.functions[origin].loc() if origin in p.functions else "src/waitress/channel.py", {"call_chain": ch})
+
+
+RULES = [rule_r1, rule_r2, rule_r3, rule_r4, rule_r5, rule_r6, rule_r7, rule_r8]
 
 from ..selftest import M, T, V  # noqa: E402
 
